@@ -772,7 +772,7 @@ func (c *Ctx) r0116(pk *packages.Package) {
 // R01.17: which statements end a block for the jump analysis.
 func (c *Ctx) r0117(pk *packages.Package) {
 	const rule = "R01.17"
-	c.R.Rule(rule, "optimizeStmtList drops an `else` and moves its body behind the `if` when the if-body ends in a jump, judged by lastStmt (which statement ends the body) and isFlowStmt (is it a jump). The rewrite is only right if control cannot fall out of that last statement: lastStmt may look through *js.BlockStmt only — not through labelled statements (`x:{…break x}` completes normally), loops, `if`, `try` or `switch` — and isFlowStmt may accept only *js.ReturnStmt, *js.ThrowStmt and *js.BranchStmt. Both sets are read off the type assertions / type-switch cases of the two functions")
+	c.R.Rule(rule, "optimizeStmtList drops an `else` and moves its body behind the `if` when the if-body ends in a jump, judged by lastStmt (which statement ends the body) and isFlowStmt (is it a jump). The rewrite is only right if control cannot fall out of that last statement: lastStmt may look through *js.BlockStmt only — not through labelled statements (`x:{…break x}` completes normally), loops, `if`, `try` or `switch` — and isFlowStmt may accept only *js.ReturnStmt, *js.ThrowStmt and *js.BranchStmt. isEqualExpr — the licence to merge two evaluations into one (`a?a:b` → `a||b`, `c?f(x):f(y)` → `f(c?x:y)`) — may call two expressions equal only when both are *js.Var. The sets are read off the type assertions / type-switch cases of the functions")
 	info := pk.TypesInfo
 	typesIn := func(fd *ast.FuncDecl) map[string]bool {
 		out := map[string]bool{}
@@ -808,6 +808,7 @@ func (c *Ctx) r0117(pk *packages.Package) {
 	}{
 		{"lastStmt", map[string]bool{"BlockStmt": true}, "control can fall out of it although its last inner statement is a jump"},
 		{"isFlowStmt", map[string]bool{"ReturnStmt": true, "ThrowStmt": true, "BranchStmt": true}, "it is not an unconditional jump"},
+		{"isEqualExpr", map[string]bool{"Var": true}, "evaluating it once instead of twice is observable (a property read can run a getter, `(o.x=5)?o.x:7` reads after writing)"},
 	} {
 		fd := c.fn(rule, pk, spec.fn)
 		if fd == nil {
@@ -821,6 +822,125 @@ func (c *Ctx) r0117(pk *packages.Package) {
 			}
 		}
 		sort.Strings(extra)
-		c.R.Check(len(extra) == 0 && len(got) > 0, rule, "js."+spec.fn+"/statement kinds", c.pos(fd), "only "+joinSorted(spec.allowed), spec.fn+" also accepts "+strings.Join(extra, ", ")+": "+spec.why+", so the else-removal changes which statements run (`if(a){x:{f();break x}}else g();h()` would run g)")
+		c.R.Check(len(extra) == 0 && len(got) > 0, rule, "js."+spec.fn+"/statement kinds", c.pos(fd), "only "+joinSorted(spec.allowed), spec.fn+" also accepts "+strings.Join(extra, ", ")+": "+spec.why+", so the rewrite built on it changes what runs (`if(a){x:{f();break x}}else g();h()` would run g; `a.b?a.b:c` → `a.b||c` calls a getter once)")
 	}
+}
+
+// R01.18: an assignment becomes a declaration only for a `var` name.
+func (c *Ctx) r0118(pk *packages.Package) {
+	const rule = "R01.18"
+	c.R.Rule(rule, "mergeVarDeclExprStmt turns `x=…` next to a `var` statement into the declaration `var x=…` by handing the assignment's target to addDefinition. That is the same binding only when x is itself declared with `var`: a parameter captured by a closure in a default-value expression lives in a separate environment (`function f(a,g=()=>a){a=1;var b}`: `var a=1` writes a new body binding, g still sees the argument), a let/const/class name cannot be redeclared, and an undeclared name would stop being a global. So every addDefinition call whose binding is the *js.Var of an assignment target is dominated by a test that admits exactly Decl == js.VariableDecl (the comparison itself, or a one-parameter predicate whose returned expression is evaluated the same way)")
+	info := pk.TypesInfo
+	fd := c.fn(rule, pk, "mergeVarDeclExprStmt")
+	if fd == nil {
+		return
+	}
+	g := c.graph(pk, fd)
+	// the Decl kinds an expression admits for variable `v`; ok=false when it does not constrain v.Decl
+	var admits func(info *types.Info, e ast.Expr, v string, depth int) (map[string]bool, bool)
+	admits = func(info *types.Info, e ast.Expr, v string, depth int) (map[string]bool, bool) {
+		e = ast.Unparen(e)
+		switch x := e.(type) {
+		case *ast.BinaryExpr:
+			switch x.Op {
+			case token.EQL:
+				for _, pr := range [][2]ast.Expr{{x.X, x.Y}, {x.Y, x.X}} {
+					if nospace(str(pr[0])) == v+".Decl" {
+						if tv, ok := info.Types[pr[1]]; ok && tv.Value != nil {
+							return map[string]bool{str(pr[1])[strings.LastIndex(str(pr[1]), ".")+1:]: true}, true
+						}
+					}
+				}
+			case token.LOR:
+				a, oka := admits(info, x.X, v, depth)
+				b, okb := admits(info, x.Y, v, depth)
+				if oka && okb {
+					for k := range b {
+						a[k] = true
+					}
+					return a, true
+				}
+				return nil, false // one side does not look at Decl: anything is admitted
+			case token.LAND:
+				a, oka := admits(info, x.X, v, depth)
+				b, okb := admits(info, x.Y, v, depth)
+				switch {
+				case oka && okb:
+					for k := range a {
+						if !b[k] {
+							delete(a, k)
+						}
+					}
+					return a, true
+				case oka:
+					return a, true
+				case okb:
+					return b, true
+				}
+			}
+		case *ast.CallExpr:
+			if depth > 0 || len(x.Args) != 1 || nospace(str(x.Args[0])) != v {
+				return nil, false
+			}
+			fo, _ := callee(info, x).(*types.Func)
+			if fo == nil {
+				return nil, false
+			}
+			for _, lp := range c.P.Roots {
+				if lp.Types != fo.Pkg() {
+					continue
+				}
+				hd := load.Func(lp, fo.Name())
+				if hd == nil || hd.Body == nil || len(hd.Body.List) != 1 || len(hd.Type.Params.List) != 1 || len(hd.Type.Params.List[0].Names) != 1 {
+					return nil, false
+				}
+				rs, ok := hd.Body.List[0].(*ast.ReturnStmt)
+				if !ok || len(rs.Results) != 1 {
+					return nil, false
+				}
+				return admits(lp.TypesInfo, rs.Results[0], hd.Type.Params.List[0].Names[0].Name, depth+1)
+			}
+		}
+		return nil, false
+	}
+	n := 0
+	for _, y := range g.Nodes {
+		a := y.Ast()
+		if a == nil || y.Kind == flow.KRange || y.Kind == flow.KSelect {
+			continue
+		}
+		ast.Inspect(a, func(x ast.Node) bool {
+			call, ok := x.(*ast.CallExpr)
+			if !ok || !strings.HasSuffix(calleeName(info, call), "/js.addDefinition") || len(call.Args) < 2 {
+				return true
+			}
+			id, ok := ast.Unparen(call.Args[1]).(*ast.Ident)
+			if !ok || namedTypeName(info.TypeOf(id)) != pjs+".Var" {
+				return true
+			}
+			n++
+			var set map[string]bool
+			for _, f := range g.DomFacts(y) {
+				if !f.Value || f.Test.Kind != flow.KCond {
+					continue
+				}
+				if s, ok := admits(info, f.Test.Expr, id.Name, 0); ok {
+					if set == nil {
+						set = s
+					} else {
+						for k := range set {
+							if !s[k] {
+								delete(set, k)
+							}
+						}
+					}
+				}
+			}
+			good := len(set) == 1 && set["VariableDecl"]
+			c.R.Check(good, rule, fmt.Sprintf("js.mergeVarDeclExprStmt/assignment to %s becomes a declaration#%d", id.Name, n), c.pos(call), "admitted only for Decl == VariableDecl",
+				fmt.Sprintf("the assignment is folded into the var statement for declaration kinds %v: for anything but a `var` name that creates or shadows a binding (`function f(a,g=()=>a){a=1;var b}` → `var a=1,b` no longer updates what g reads)", sortedKeys(set)))
+			return true
+		})
+	}
+	c.R.Floor(rule, "assignments folded into declarations", n, 2)
 }
